@@ -132,6 +132,10 @@ func init() {
 			if tier == "thorough" {
 				b2 = 2
 			}
+			if tier == "thorough" {
+				ps = append(ps, Param{Name: "n1-pat0-len1048577", Bound: 0, V: map[string]int{"n": 1, "pat": 0, "len": 1<<20 + 1}})
+				ps = append(ps, Param{Name: "n1-pat2-len1048577", Bound: 0, V: map[string]int{"n": 1, "pat": 2, "len": 1<<20 + 1}})
+			}
 			ps = append(ps, Param{Name: "n2-pat0-len4097", Bound: b2, V: map[string]int{"n": 2, "pat": 0, "len": 4097}})
 			ps = append(ps, Param{Name: "n2-pat2-len1", Bound: b2, V: map[string]int{"n": 2, "pat": 2, "len": 1}})
 			return ps
